@@ -10,6 +10,6 @@ EdgesMinusOne(s) == IF Required(s) = {} THEN {} ELSE Required(s) \ {CHOOSE p \in
 EmitInit == sig \in Sig /\ phase = "sig" /\ rooted = {} /\ retLive = FALSE /\ borrows = {} /\ freed = {}
 EmitSpec == EmitInit /\ [][FALSE]_vars
 Emit == PrintT(<<"CASE", ToJson([sig |-> sig, accepted |-> Accepted(sig),
-                    missing |-> MustRestate(sig) \ Spelled(sig),
+                    missing |-> MustRestate(sig) \ TC(Named(Spelled(sig))),
                     edges |-> [r \in OutLts(sig) |-> EdgeList(sig, r)]])>>)
 =============================================================================
